@@ -86,6 +86,20 @@ def monitor(spec, res, acc, complete=True):
         acc.add("planting-dates", f"scheduled planting dates {pl[:4]} differ from the planting day of "
                 f"consecutive years starting on/after the start date {exp_pl[:4]}",
                 dict(model=[str(x) for x in pl[:5]], expected=[str(x) for x in exp_pl[:5]]))
+    # ---- number of scheduled seasons -----------------------------------------------------
+    # every planting date P with start <= P < end starts a season; for a crop whose season runs
+    # into the next calendar year the model (documented quirk, D12) only schedules seasons whose
+    # harvest year lies inside the window, i.e. plantings in years before the end year
+    if pl and hd:
+        spanning = hd[0].year > pl[0].year
+        cand = [x for x in exp_pl if x < E0]
+        if spanning:
+            cand = [x for x in cand if x.year < E0.year]
+        cov["season_count_checks"] += 1
+        if nse != len(cand):
+            acc.add("season-count", f"{nse} seasons scheduled ({[str(x) for x in pl[-2:]]} last), but the window "
+                    f"{S0}..{E0} contains {len(cand)} planting dates that start a season (last {cand[-1] if cand else None})",
+                    dict(scheduled=nse, expected=len(cand), spanning=spanning, end=str(E0)))
     if spec["crop"].get("harvest"):
         hm, hd_ = [int(x) for x in spec["crop"]["harvest"].split("/")]
         for h in hd:
